@@ -9,6 +9,8 @@ Not proved (validated by the check only): that Gray's bit-quad sum equals compon
 -/
 import Mahotas.Proofs.C15
 import Mahotas.Proofs.C15Thin
+import Mahotas.Proofs.C15Model
+import Mahotas.Proofs.C15Idem
 open Mahotas Mahotas.C15
 
 /-- **thin ⊆ input.** Every pixel set in the model of `mahotas.thin` (crop to the bounding box, zero
@@ -42,14 +44,22 @@ theorem C15_thin_reaches_fixpoint (b : Bin) (hb : b.WF) (maxIter : Int) (hm : ma
     Stable (thinCore b maxIter) :=
   thinCore_stable b hb maxIter hm
 
-/-- **Idempotence of the loop (partial).** Thinning the loop's result again returns it unchanged.
-Missing for the full statement about `mahotas.thin`: that cropping the result to its (possibly
-smaller) bounding box and re-framing it is a translation of the same pixel set — the check
-validates `thin(thin(x)) == thin(x)` on the real code instead. -/
-theorem C15_thin_idempotent_partial (b : Bin) (hb : b.WF) (m m' : Int) (hm : m < 0) :
-    (thinCore (thinCore b m) m').data = (thinCore b m).data := by
-  have hs := thinCore_stable b hb m hm
-  exact thinLoop_of_stable _ _ hs
+/-- **thin keeps the 8-connected components** — the whole model of `mahotas.thin` (bounding-box
+crop, zero frame, loop with any `max_iter`, paste back), every image: with `A` the input pixel set
+and `B` the output pixel set, `B ⊆ A`, two pixels of `B` are 8-connected inside `A` iff they are
+inside `B`, and every pixel of `A` is 8-connected inside `A` to a pixel of `B`; i.e. inclusion is a
+bijection between the 8-components of the output and of the input (same number of components). -/
+theorem C15_thin_preserves_components (b : Bin) (maxIter : Int) :
+    SameComps (bset b) (bset (thinModel b maxIter)) :=
+  thinModel_sameComps b maxIter
+
+/-- **Thinning the result again changes nothing**: `thin(thin(x), ·) = thin(x)` for the whole model
+(full skeletonisation `max_iter < 0` in the first call, any `max_iter` in the second) and every
+image. (The loop's result is a fixed point; cropping it to its possibly smaller bounding box and
+re-framing is a translation; passes commute with translations.) -/
+theorem C15_thin_idempotent (b : Bin) (maxIter maxIter' : Int) (hm : maxIter < 0) :
+    thinModel (thinModel b maxIter) maxIter' = thinModel b maxIter :=
+  thinModel_idem b maxIter maxIter' hm
 
 /-- **The eight templates are two templates and their rotations.** Each generated element has the
 same members as a rotation by a multiple of 90° of generated element 0 (north edge:
